@@ -50,6 +50,8 @@ def main():
         "kryptology's FROST participant and kyber's Pedersen DKG are modelled (each dealer contributes a polynomial of degree < t per validator; a node's share is the sum of what was routed to it), not verified; their zero-knowledge / Feldman / complaint machinery is not part of the model",
         "theorems: transport contract = every node receives exactly the messages addressed to it, each once, in an arbitrary order, all n nodes honest; that frostp2p.go establishes this contract from a network that re-delivers and re-orders is not a theorem — it is exercised by the real-transport ceremony class (reliable broadcast itself is property C13)",
         "the full ceremony (dkg.Run: sync, lock-hash / deposit / registration signing and aggregation, writing artefacts, add-validators flow) has no Coq model: it is covered by the artefact monitor on sampled scenarios only (one append scenario per quick run, rotating by seed)",
+        "faulty participants: one faulty FROST participant / up to two faulty Pedersen dealers of the kinds listed in the coverage rule; equivocation (a broadcast that differs per receiver) is excluded because the reliable broadcast (C13), which the harness replaces by a stand-in, makes it undeliverable. With faults 'successful ceremony' is read as success on ALL nodes; a ceremony in which some node reports an error is outside the property and only counted",
+        "message LOSS is outside the fault model of pedersen.RunDKG (kyber's DKG assumes a reliable channel): one lost deal bundle makes RunDKG return success on all nodes with different group keys (RunDKG does not compare Result.QUAL) — recorded as reading note N-C11-QUAL, because the full ceremony dkg.Run then aborts on every node ('timed out waiting for peer signatures': the lock hashes differ), which the lossy dkg.Run scenario re-checks",
         "Pedersen ceremonies are covered by correspondence against the same C08/C11 theorems about the joint polynomial (degree < t), there is no separate Coq model of dkg/pedersen",
         "pairing-group hypotheses and admissible ids 1..n as in C08; the Coq decision 'on one polynomial of degree exactly t-1' (vsr_checkZ at the BLS12-381 scalar order r) is sound by C08_vsr_checkZ_sound_r (r proved prime in Tbls/PrimeR.v)",
         "the ceremonies draw their randomness internally (crypto/rand): the check is relational on the produced outputs, a replay re-runs the configuration (same delivery plan / order seed) three times",
@@ -67,9 +69,11 @@ def main():
         if not isinstance(replay, dict) or "n" not in replay:
             os.environ.pop("VERIF_REPLAY", None)
             replay = None
-    want = {"mem", "p2p", "pedersen", "run"}
+    want = {"mem", "p2p", "pedersen", "pedfaults", "run"}
     if replay is not None:
-        if replay.get("full_run"):
+        if replay.get("pedersen_faults"):
+            want = {"pedfaults"}
+        elif replay.get("full_run"):
             want = {"run"}
         elif replay.get("algo") == "pedersen":
             want = {"pedersen"}
@@ -88,13 +92,18 @@ def main():
         rc, out, od = vp.go_overlay_test("dkg", OVERLAY, run="TestVerifC11Run$", timeout=1500, outdir=os.path.join(vp.WORK, "ov_dkg_run"))
         return "full dkg.Run", rc, out, os.path.join(od, "c11run_cases.json")
 
+    def do_pedf():
+        rc, out, od = vp.go_overlay_test("dkg/pedersen", {"zz_verif_c11ped_test.go": os.path.join(vp.HARNESS, "overlay", "dkg_pedersen", "zz_verif_c11ped_test.go")},
+                                         run="TestVerifC11PedFaults$", timeout=1200, outdir=os.path.join(vp.WORK, "ov_dkg_pedf"))
+        return "pedersen with faults", rc, out, os.path.join(od, "c11pedfaults_cases.json")
+
     def do_ped():
         rc, out, od = vp.go_harness("c11ped", timeout=1200)
         return "pedersen", rc, out, os.path.join(od, "c11ped_cases.json")
 
     from concurrent.futures import ThreadPoolExecutor
-    todo = [(c, f) for c, f in (("mem", do_mem), ("p2p", do_p2p), ("pedersen", do_ped), ("run", do_run)) if c in want]
-    with ThreadPoolExecutor(max_workers=4) as ex:
+    todo = [(c, f) for c, f in (("mem", do_mem), ("p2p", do_p2p), ("pedersen", do_ped), ("pedfaults", do_pedf), ("run", do_run)) if c in want]
+    with ThreadPoolExecutor(max_workers=5) as ex:
         done = list(ex.map(lambda cf: (cf[0], cf[1]()), todo))
     runs = []  # (class, output dict)
     for cls, (name, rc, out, pth) in done:
@@ -111,9 +120,16 @@ def main():
         ncer += len(cer)
         for v in o.get("violations") or []:
             found.append((v["key"], v["what"], v["replay"]))
+        for v in o.get("notes") or []:
+            R.notes.append("%s: %s" % (v["key"], v["what"]))
         for c in cer:
-            if not c.get("err"):
-                distinct.add((cls, c["n"], c["t"], c["vals"], c.get("algo"), c.get("flow"), json.dumps(c.get("stale_session")), json.dumps(c.get("p2p")), json.dumps(c.get("release_orders")), json.dumps(c.get("completion_order")), c.get("id") if cls == "pedersen" else 0))
+            if c.get("flow") == "lossy":
+                R.notes.append("N-C11-QUAL at the level of the full ceremony: dkg.Run (pedersen, n=%d t=%d) with the %s bundle of node %d to node %d lost (%s streams dropped): %s"
+                               % (c["n"], c["t"], c["drop"]["kind"], c["drop"]["from"], c["drop"]["to"], c.get("streams_dropped"),
+                                  ("every node's verdict: " + "; ".join(c.get("node_errors") or [])) if c.get("node_errors") else "dkg.Run returned nil on all nodes and the artefacts passed the monitor"))
+        for c in cer:
+            if not c.get("err") or c.get("pedersen_faults") or (c.get("p2p") or {}).get("fault"):
+                distinct.add((cls, c["n"], c["t"], c["vals"], c.get("algo"), c.get("flow"), json.dumps(c.get("stale_session")), json.dumps(c.get("pedersen_faults")), json.dumps(c.get("drop")), json.dumps(c.get("p2p")), json.dumps(c.get("release_orders")), json.dumps(c.get("completion_order")), c.get("id") if cls == "pedersen" else 0))
             for vi, val in enumerate(c.get("validators") or []):
                 i = len(rows)
                 owner[i] = (cls, c, vi)
@@ -151,7 +167,9 @@ def main():
     R.coverage["rule"] = ("one evaluation = one in-process ceremony (all n nodes run concurrently): FROST through dkg.runFrostParallel over an in-memory transport, "
                           "FROST over the real frostP2P transport with controlled order and multiplicity of deliveries, Pedersen through pedersen.RunDKG (also as a second ceremony on the same hosts with a straggler message of the abandoned session), "
                           "or a full dkg.Run scenario (plain / add-validators) whose artefacts on disk are checked; "
-                          "non-trivial = the ceremony completed on all nodes (then all group-side checks and the Coq polynomial check ran on its outputs); "
+                          "FROST over the real transport with ONE faulty participant (threshold +-1, extra / missing commitment, wrong ValIdx / SourceID / TargetID, share sent to the wrong target, shares of two validators exchanged), "
+                          "Pedersen with scripted faulty dealers (1 or 2 dealers deal an undecryptable share: complaint + justification must recover) and with lost deal / response / justification bundles (lossy stream wrapper); "
+                          "non-trivial = the ceremony completed on all nodes (then all group-side checks and the Coq polynomial check ran on its outputs) or it ran with an injected fault (then it must fail or complete consistently); "
                           "distinct by (class, n, t, validators, delivery plan / release and completion orders)")
     ran = []
     for cls, o in runs:
